@@ -133,7 +133,7 @@ def mulGamma (gamma : Option T) (inv : T) : T :=
   | some gm => inv.mapIdx fun c v => v * gm.getD c 0
 
 /-- `inv * (bias - mean) + beta` per channel; `bias = 0` when `use_bias=False`; `beta = 0` when
-    center=False (`if beta is None: beta = 0.` — fix PENDING-center; before it the expression raised).
+    center=False (`if beta is None: beta = 0.` — fix d42f1d8; before it the expression raised).
     The `Option` is kept for the callers' error channel; it is never `none` any more
     (`C15_callable`). -/
 def foldedBias (cout : Nat) (inv : T) (bias : Option T) (mean : T) (beta : Option T) : Option T :=
